@@ -7,7 +7,7 @@ import ast
 from ..cfg import Node, must_edges, walk_no_nested
 from ..constfold import Folder, Unknown
 from ..dataflow import bind_call, chain_key, fmt_origin, origins
-from ..decide import Decider, LoopFacts, role_of
+from ..decide import Decider, LoopFacts, expand_expr, role_of
 from ..loader import AnalysisError, ConstInfo, FuncInfo
 from ..report import Ctx
 from .common import all_guards, call_name, direct_guards, norm, where
@@ -183,7 +183,8 @@ def check_sentence_lines(ctx: Ctx) -> None:
            any(o[0] == "call" for o in it_org), "the loop must range over the sentence splitter's result", where(lw, h))
     for n, c in flow.all_calls():
         if prog.resolve_call(lw, c) == [wl] and n in body:
-            org = origins(prog, lw, c.args[0], n) if c.args else frozenset()
+            targ = bind_call(wl, c).get(wl.params[0])
+            org = origins(prog, lw, targ, n) if targ is not None else frozenset()
             ctx.ob("R-SENT", f"{lw.qual} :: wraps one sentence at a time", bool(org) and all(o[0] == "iter" for o in org),
                    "wrap_paragraph_lines must be applied to the current sentence only; it gets " + ", ".join(fmt_origin(o) for o in org), where(lw, c))
     carried = flow.loop_carried(h)
@@ -281,12 +282,32 @@ def check_placeholders(ctx: Ctx) -> None:
     ctx.ob("R-LOSSLESS-L5", f"{TW}:_PLACEHOLDER_PREFIX/_SUFFIX", isinstance(pre, str) and isinstance(suf, str) and pre.startswith("\x00") and suf == "\x00",
            f"placeholders must be delimited by NUL bytes (cannot be produced by whitespace splitting or occur in text): {pre!r} ... {suf!r}",
            "text_wrapping.py")
-    spell = []
-    for f in (ext, res):
-        fs = [n for n in ast.walk(f.node) if isinstance(n, ast.JoinedStr) and "_PLACEHOLDER_PREFIX" in norm(n)]
-        spell.append({_shape(x) for x in fs})
-    ctx.ob("R-LOSSLESS-L5", f"{TW} :: extract and restore spell placeholders alike", bool(spell[0]) and spell[0] == spell[1],
-           f"both sides must build the placeholder as prefix+index+suffix: {spell}", "text_wrapping.py")
+    # the placeholder is built the same way on both sides: what the extraction callback returns and what restore searches
+    # for are compared as string templates (constants folded, the index a hole), through helpers and temporaries
+    ext_t: set = set()
+    for cb in [f for f in ext.local_defs.values() if isinstance(f, FuncInfo)]:
+        for r in prog.flow(cb).cfg.returns():
+            ext_t.add(str_template(prog, cb, r.ast.value, r))
+    res_t: set = set()
+    seen_f: set[str] = set()
+    work = [res]
+    while work:
+        f = work.pop()
+        if f.qual in seen_f or len(seen_f) > 6:
+            continue
+        seen_f.add(f.qual)
+        fl = prog.flow(f)
+        for n, c in fl.all_calls():
+            if isinstance(c.func, ast.Attribute) and c.func.attr == "replace" and len(c.args) == 2:
+                res_t.add(str_template(prog, f, c.args[0], n))
+            t = prog.resolve_call(f, c)
+            if isinstance(t, list) and len(t) == 1 and t[0].module is f.module:
+                work.append(t[0])
+    want_t = (("c", pre), ("h",), ("c", suf)) if isinstance(pre, str) and isinstance(suf, str) else None
+    ctx.ob("R-LOSSLESS-L5", f"{TW} :: extract and restore spell placeholders alike",
+           bool(ext_t) and ext_t == res_t and None not in ext_t and (want_t is None or ext_t == {want_t}),
+           f"both sides must build the placeholder as prefix+index+suffix: extract returns {sorted(map(str, ext_t))}, restore replaces {sorted(map(str, res_t))}",
+           "text_wrapping.py")
     # a single extraction pass over the combined pattern
     eflow = prog.flow(ext)
     subs = [(n, c) for n, c in eflow.all_calls() if isinstance(c.func, ast.Attribute) and c.func.attr == "sub"]
@@ -300,6 +321,67 @@ def check_placeholders(ctx: Ctx) -> None:
         stores = [n for n in ast.walk(cb.node) if isinstance(n, ast.Assign) and isinstance(n.targets[0], ast.Subscript)]
         ok = any("group(0)" in norm(s.value) or _is_group0(cb, s.value) for s in stores)
         ctx.ob("R-LOSSLESS-L5", f"{cb.qual} :: stores the whole match", ok, "the map must hold match.group(0) (the construct verbatim)", where(cb, cb.node))
+
+
+def str_template(prog, fi: FuncInfo, expr: ast.AST | None, node: Node, depth: int = 0):
+    """The string `expr` builds, as a tuple of ("c", text) constants and ("h",) holes (values converted with str / an
+    f-string field); None when it is not such a concatenation. Temporaries, module constants and helpers are read through."""
+    from ..decide import expand_expr
+
+    if expr is None or depth > 3:
+        return None
+    e = expand_expr(prog, fi, expr, node, strict=False)
+
+    def merge(parts):
+        out: list = []
+        for p in parts:
+            if p[0] == "c" and p[1] == "":
+                continue
+            if out and out[-1][0] == "c" and p[0] == "c":
+                out[-1] = ("c", out[-1][1] + p[1])
+            else:
+                out.append(p)
+        return tuple(out)
+
+    def go(x: ast.AST):
+        if isinstance(x, ast.Constant) and isinstance(x.value, str):
+            return [("c", x.value)]
+        if isinstance(x, ast.JoinedStr):
+            out: list = []
+            for v in x.values:
+                if isinstance(v, ast.Constant):
+                    out.append(("c", v.value))
+                elif isinstance(v, ast.FormattedValue) and v.format_spec is None:
+                    sub = go(v.value) if v.conversion == -1 else None
+                    out += sub if sub is not None and all(p[0] == "c" for p in sub) else [("h",)]
+                else:
+                    return None
+            return out
+        if isinstance(x, ast.BinOp) and isinstance(x.op, ast.Add):
+            a, b = go(x.left), go(x.right)
+            return None if a is None or b is None else a + b
+        if isinstance(x, ast.Call) and isinstance(x.func, ast.Name) and x.func.id in ("str", "repr", "format") and len(x.args) == 1:
+            return [("h",)]
+        if isinstance(x, ast.Name):
+            r = prog.repo.lookup(x.id, fi.module, fi)
+            if isinstance(r, ConstInfo):
+                try:
+                    v = Folder(prog.repo).const(r.qual)
+                except Unknown:
+                    return None
+                return [("c", v)] if isinstance(v, str) else None
+            return [("h",)] if False else None
+        if isinstance(x, ast.Call):
+            t = prog.resolve_call(fi, x)
+            if isinstance(t, list) and len(t) == 1 and not isinstance(t[0].node, ast.Lambda):
+                rets = [r for r in prog.flow(t[0]).cfg.returns() if r.ast.value is not None]
+                if len(rets) == 1:
+                    sub = str_template(prog, t[0], rets[0].ast.value, rets[0], depth + 1)
+                    return list(sub) if sub is not None else None
+        return None
+
+    parts = go(e)
+    return merge(parts) if parts is not None else None
 
 
 def _is_group0(cb: FuncInfo, v: ast.AST) -> bool:
@@ -404,6 +486,15 @@ def check_indents(ctx: Ctx) -> None:
         ps = "subsequent_indent"
         first = [n for n in flow.cfg.nodes if n.kind == "stmt" and isinstance(n.ast, ast.Assign) and norm(n.ast.targets[0]).endswith("[0]")]
         rest = [n for n in flow.cfg.nodes if n.kind == "stmt" and isinstance(n.ast, ast.Assign) and norm(n.ast.targets[0]).endswith("[1:]")]
+        # ... or element by element: for i in range(1, len(lines)): lines[i] = subsequent_indent + lines[i]
+        for h in flow.cfg.nodes:
+            if h.kind == "for" and isinstance(h.ast.target, ast.Name) and isinstance(h.ast.iter, ast.Call) and isinstance(h.ast.iter.func, ast.Name) \
+                    and h.ast.iter.func.id == "range" and len(h.ast.iter.args) == 2 and isinstance(h.ast.iter.args[0], ast.Constant) \
+                    and h.ast.iter.args[0].value == 1 and norm(h.ast.iter.args[1]).startswith("len("):
+                for n in flow.loop_body_nodes(h):
+                    if n.kind == "stmt" and isinstance(n.ast, ast.Assign) and isinstance(n.ast.targets[0], ast.Subscript) \
+                            and norm(n.ast.targets[0].slice) == h.ast.target.id:
+                        rest.append(n)
         ok1 = any(pi in {x.id for x in ast.walk(n.ast.value) if isinstance(x, ast.Name)} for n in first)
         ok2 = any(ps in {x.id for x in ast.walk(n.ast.value) if isinstance(x, ast.Name)} for n in rest)
         ctx.ob("R-LOSSLESS-L8", f"{f.qual} :: first line gets initial_indent, later lines subsequent_indent", ok1 and ok2,
@@ -419,28 +510,39 @@ def check_indents(ctx: Ctx) -> None:
 
 
 def _first_segment_indent(prog, w: FuncInfo, a1: ast.AST, node: Node, p_init: str, p_sub: str) -> tuple[bool, str]:
+    """The indent handed to the base wrapper inside the segment loop is the initial indent on the first iteration and the
+    subsequent indent on every later one - decided by evaluating the loop body under "first iteration" / "later iteration"."""
     flow = prog.flow(w)
-    e = a1
-    nd = node
-    if isinstance(e, ast.Name):
-        defs = flow.reaching(nd, e.id)
-        if len(defs) != 1 or defs[0].value is None:
-            return False, f"indent variable `{e.id}` has {len(defs)} definitions"
-        e, nd = defs[0].value, defs[0].node
-    if not isinstance(e, ast.IfExp):
-        return False, f"segment indent is `{norm(e)}`, not a first-segment selection"
-    body_ok = origins(prog, w, e.body, nd) == frozenset({("param", p_init)})
-    else_ok = origins(prog, w, e.orelse, nd) == frozenset({("param", p_sub)})
-    # the test: i == 0 with i the enumerate index
-    t = e.test
-    tn = nd
-    if isinstance(t, ast.Name):
-        defs = flow.reaching(tn, t.id)
-        if len(defs) == 1 and defs[0].value is not None:
-            t, tn = defs[0].value, defs[0].node
-    first_ok = isinstance(t, ast.Compare) and isinstance(t.ops[0], ast.Eq) and isinstance(t.comparators[0], ast.Constant) and t.comparators[0].value == 0 \
-        and any(o[0] == "iter" and o[2] == 0 for o in origins(prog, w, t.left, tn))
-    return body_ok and else_ok and first_ok, f"selection `{norm(e)}` (first-segment test ok: {first_ok})"
+    heads = [h for h in flow.cfg.nodes if h.kind == "for" and node in flow.loop_body_nodes(h)]
+    if not heads:
+        return False, "call is not inside a segment loop"
+    head = min(heads, key=lambda h: len(flow.loop_body_nodes(h)))
+    facts = LoopFacts(prog, w, head)
+
+    def value_leaf(cur: FuncInfo, e: ast.AST, aliases: frozenset):
+        roles = role_of(e, aliases)
+        if "init" in roles:
+            return "INIT"
+        if "sub" in roles:
+            return "SUB"
+        return None
+
+    al = frozenset({f"init={p_init}", f"sub={p_sub}"})
+    got: dict[bool, set] = {}
+    for first in (True, False):
+        fa = facts.first_atom(first)
+        dec = Decider(prog, lambda leaf, _al, fa=fa: fa(leaf), value_leaf=value_leaf)
+        vals: set = set()
+        for be in [x for x, lab in head.succ if lab == "iter"]:
+            if be is node:
+                vals |= dec.ev(w, a1, {}, {}, al, 0)
+                continue
+            for end, env, benv, _outs in dec.walk(w, be, lambda x: x is node or x is head, al):
+                if end is node:
+                    vals |= dec.ev(w, a1, env, benv, env.get("__aliases__", al), 0)
+        got[first] = vals
+    ok = got[True] == {"INIT"} and got[False] == {"SUB"}
+    return ok, f"first segment gets {sorted(map(str, got[True]))}, later segments get {sorted(map(str, got[False]))}"
 
 
 # ---------------------------------------------------------------------------------------- R-ACCT
@@ -470,6 +572,8 @@ def check_accounting(ctx: Ctx) -> None:
             b = bind_call(wl, c)
             ic = b.get("initial_column")
             so = b.get("subsequent_offset")
+            ic = expand_expr(prog, wp, ic, n) if ic is not None else None
+            so = expand_expr(prog, wp, so, n) if so is not None else None
             ok_ic = isinstance(ic, ast.BinOp) and isinstance(ic.op, ast.Add) and {norm(ic.left), norm(ic.right)} == {"initial_column", "len_fn(initial_indent)"}
             ok_so = so is not None and norm(so) == "len_fn(subsequent_indent)"
             ctx.ob("R-ACCT", f"{wp.qual} -> {wl.qual} :: initial_column", ok_ic,
@@ -555,12 +659,13 @@ def check_accounting(ctx: Ctx) -> None:
             if m.kind == "stmt" and isinstance(m.ast, ast.Assign) and isinstance(m.ast.value, ast.List) and len(m.ast.value.elts) == 1 \
                     and isinstance(m.ast.value.elts[0], ast.Name) and m in flow.loop_body_nodes(next(h for h in flow.cfg.nodes if h.kind == "for" and n in flow.loop_body_nodes(h))):
                 placed = m.ast.value.elts[0].id
-        wvars = names - {"subsequent_offset"}
         ok = False
-        for wv in wvars:
-            for d in flow.reaching(n, wv):
-                if d.kind == "assign" and isinstance(d.value, ast.Call) and d.value.args and isinstance(d.value.args[0], ast.Name) \
-                        and d.value.args[0].id == placed:
+        if placed is not None:
+            # some length term of the (expanded) column expression measures exactly the placed value
+            want = norm(expand_expr(prog, wl, ast.Name(id=placed, ctx=ast.Load()), n))
+            ex = expand_expr(prog, wl, n.ast.value, n)
+            for c2 in ast.walk(ex):
+                if isinstance(c2, ast.Call) and len(c2.args) == 1 and norm(c2.args[0]) in (want, placed):
                     ok = True
         ctx.ob("R-ACCT", f"{wl.qual} :: new line column = subsequent_offset + len(placed word)", ok,
                f"after a break the column must be the continuation offset plus the length of the word actually placed (`{placed}`, "
